@@ -577,14 +577,17 @@ func mutate(r *rand.Rand, doc *generator.Doc, cfg *generator.Config, kind int) s
 	return "noop"
 }
 
+// loadErr is set when a shipped schema cannot be read at all: nothing can be generated from it
+var loadErr error
+
 func load(schema, types string) (*generator.Doc, *generator.Config) {
-	doc := &generator.Doc{}
+	doc := &generator.Doc{Header: &generator.Component{}, Trailer: &generator.Component{}}
 	if err := utils.ParseXML(schema, doc); err != nil {
-		panic(err)
+		loadErr = fmt.Errorf("%s: %v", schema, err)
 	}
 	cfg := &generator.Config{}
 	if err := utils.ParseXML(types, cfg); err != nil {
-		panic(err)
+		loadErr = fmt.Errorf("%s: %v", types, err)
 	}
 	return doc, cfg
 }
@@ -874,6 +877,11 @@ func main() {
 	defer os.RemoveAll(tmp)
 	src, typ := filepath.Join(*repo, "source/fix44.xml"), filepath.Join(*repo, "source/types.xml")
 	doc, cfg := load(src, typ)
+	if loadErr != nil {
+		o.Fail("C12", "schema-unreadable", "the shipped reference schema cannot be read by the generator's own loader: "+loadErr.Error())
+		return
+	}
+	xmlCheck(o, "source/fix44.xml", src, typ, doc, cfg)
 	// 1. the reference schema, and the reference package shipped in tests/fix44
 	refLines := one(o, tmp, 0, "source/fix44.xml", doc, cfg, true)
 	shipped, _, _ := abstractPackage(filepath.Join(*repo, "tests/fix44"), o, "tests/fix44")
@@ -892,8 +900,15 @@ func main() {
 		o.Fail("C12", "reference-package-differs", fmt.Sprintf("tests/fix44 has %d declarations, a fresh generation %d; first shipped-only line: %s", len(shipped), len(refLines), diff))
 	}
 	referenceAccessors(o, doc)
+	// 1b. the command itself
+	cliCheck(o, tmp, filepath.Join(tmp, "s0", "fixpkg"), refLines, src, typ)
 	// 2. the large test schema with its deliberate duplicate: must be rejected; with the duplicate removed: accepted
 	big, bigT := load(filepath.Join(*repo, "generator/testdata/fix.4.4.xml"), filepath.Join(*repo, "generator/testdata/types.xml"))
+	if loadErr != nil {
+		o.Fail("C12", "schema-unreadable", "the shipped test schema cannot be read by the generator's own loader: "+loadErr.Error())
+		return
+	}
+	xmlCheck(o, "generator/testdata/fix.4.4.xml", filepath.Join(*repo, "generator/testdata/fix.4.4.xml"), filepath.Join(*repo, "generator/testdata/types.xml"), big, bigT)
 	one(o, tmp, 1, "generator/testdata/fix.4.4.xml", big, bigT, false)
 	seen := map[string]bool{}
 	var fs []*generator.Field
